@@ -1,6 +1,7 @@
 package main
 
 import (
+	"sync"
 	"bytes"
 	"encoding/base64"
 	"encoding/json"
@@ -277,6 +278,73 @@ func httpCmd(out *cq.Out, seed uint64, tier string) {
 		out.Violate("C11:server-wedged-or-wrong-after-request", "at the end of the request stream: "+why, map[string]interface{}{"seed": seed})
 		writeCases()
 		return
+	}
+	// ordinary concurrent traffic: several clients query (by event, by digest, incremental) while others insert; every
+	// request must be answered, and the node must still work afterwards
+	{
+		var wg sync.WaitGroup
+		var mu sync.Mutex
+		stuck := ""
+		answered := 0
+		deadline := time.Now().Add(2500 * time.Millisecond)
+		bigKey := make([]byte, 48*1024)
+		worker := func(kind int) {
+			defer wg.Done()
+			for i := 0; time.Now().Before(deadline); i++ {
+				var r httpReq
+				switch kind {
+				case 0:
+					body, _ := json.Marshal(protocol.Event{Event: []byte(fmt.Sprintf("conc-%d-%d", kind, i))})
+					r = httpReq{"api", "POST", "/events", string(body), ""}
+				case 1:
+					body, _ := json.Marshal(protocol.EventsBulk{Events: [][]byte{[]byte(fmt.Sprintf("concb-%d-a", i)), []byte(fmt.Sprintf("concb-%d-b", i))}})
+					r = httpReq{"api", "POST", "/events/bulk", string(body), ""}
+				case 2, 3, 4:
+					key := []byte(fmt.Sprintf("follow-%d", 1+i%k))
+					if kind == 4 {
+						key = bigKey // a large event: hashing it takes a while
+					}
+					v := uint64(i % 3)
+					body, _ := json.Marshal(protocol.MembershipQuery{Key: key, Version: &v})
+					r = httpReq{"api", "POST", "/proofs/membership", string(body), ""}
+				case 5:
+					body, _ := json.Marshal(protocol.MembershipDigest{KeyDigest: hashing.NewSha256Hasher().Do([]byte("follow-1"))})
+					r = httpReq{"api", "POST", "/proofs/digest-membership", string(body), ""}
+				default:
+					body, _ := json.Marshal(protocol.IncrementalRequest{Start: 0, End: uint64(i % 2)})
+					r = httpReq{"api", "POST", "/proofs/incremental", string(body), ""}
+				}
+				_, _, err := do(r)
+				mu.Lock()
+				if err != nil && stuck == "" {
+					stuck = fmt.Sprintf("%s %s: %v", r.method, r.path, err)
+				}
+				answered++
+				mu.Unlock()
+				if err != nil {
+					return
+				}
+			}
+		}
+		for kind := 0; kind < 7; kind++ {
+			wg.Add(1)
+			go worker(kind)
+		}
+		finished := withTimeout(60*time.Second, wg.Wait)
+		out.Count("concurrent_requests", answered)
+		out.Case("concurrent-traffic", true)
+		desc := map[string]interface{}{"seed": seed, "phase": "concurrent traffic: 2 inserting clients, 5 querying clients (membership by event incl. a 48 KiB event, by digest, incremental), 2.5 s"}
+		why := ""
+		if !finished || stuck != "" {
+			why = "a request of the concurrent phase got no answer: " + stuck
+		} else if !withTimeout(45*time.Second, func() { why = followUp() }) {
+			why = "the node no longer answers after the concurrent phase"
+		}
+		if why != "" {
+			out.Violate("C11:server-wedged-or-wrong-after-request", "under ordinary concurrent traffic (clients inserting while others query): "+why, desc)
+			writeCases()
+			return
+		}
 	}
 	// replay after restart: everything that was replicated must apply again
 	api.Close()
